@@ -128,6 +128,19 @@ elif kind == "galilean":
     print(r1, a, r2, b)
     if r1 != r2 or (r1 == 0 and (differs(a[0], b[0], abs(a[0])) or differs(a[1] + c, b[1], abs(a[1]) + abs(c) + abs(b[1])))):
         bad = "not Galilean invariant for shift %%r" %% c
+elif kind == "converged":
+    # success must mean that the last Newton change met the tolerance: the
+    # argument of the solver's abs() call is recorded through the module
+    # globals
+    seen = []
+    R.abs = lambda x: (seen.append(x), abs(x))[1]
+    try:
+        r1, a = call(rhol, rhor, pl, pr, ul, ur)
+    finally:
+        del R.abs
+    print(r1, a, seen[-1:])
+    if r1 == 0 and (not seen or 2.0*abs(seen[-1]) > tol):
+        bad = "success (rc 0) although the last relative Newton change %%r exceeds tol %%r" %% (2.0*abs(seen[-1]) if seen else None, tol)
 elif kind == "vacuum":
     r1, a = call(rhol, rhor, pl, pr, ul, ur)
     g4 = 2.0/(gamma - 1.0)
@@ -306,6 +319,41 @@ def unit_solver(name, niter=1, tol=1e-6, timeout_ms=60000, fork_minmax=False,
                 if r1 == 0:
                     claim(path.ctx, "vacuum", "path %d: success only for "
                           "non-vacuum data" % k, to_real(lim) > to_real(du))
+        if "converged" in kinds:
+            from vf.symx import sym_abs
+            rec = []
+
+            def abs_rec(x):
+                rec.append(x)
+                return sym_abs(x)
+
+            def run5(c):
+                _assume_admissible(c, v)
+                del rec[:]
+                R.abs = abs_rec
+                a = _call(f, (v["rhol"], v["rhor"], v["pl"], v["pr"],
+                              v["ul"], v["ur"], v["gamma"]), niter, tol)
+                return a, list(rec)
+            k = 0
+            try:
+                for path in explore(run5, **ex):
+                    k += 1
+                    if path.exc is not None:
+                        continue
+                    (r1, a), seen = path.value
+                    key = "converged:%s" % (r1,)
+                    out["outcomes"][key] = out["outcomes"].get(key, 0) + 1
+                    if r1 == 0:
+                        if not seen:
+                            term = z3.BoolVal(False)
+                        else:
+                            ch = 2 * sym_abs(seen[-1])
+                            term = to_real(ch) <= rv(Fraction(repr(tol)))
+                        claim(path.ctx, "converged", "path %d: success only "
+                              "when the last relative Newton change <= tol"
+                              % k, term)
+            finally:
+                R.abs = sym_abs
         if "dispatch" in kinds:
             def run3(c):
                 _assume_admissible(c, v)
@@ -376,6 +424,12 @@ def main():
         add(s_, ("equal_states",))
         add(s_, ("dispatch",))
     add("exact", ("vacuum",))
+    # exact: return code 0 only after the convergence test was met (the
+    # argument of the solver's abs() is recorded through the module globals);
+    # niter=1 has no success path on the unchanged tree, niter=2 has
+    add("exact", ("converged",), niter=1)
+    add("exact", ("converged",), niter=2, deadline_s=150 if t == "quick"
+        else 1500)
     # scaling / Galilean equivariance of van_leer by induction over the
     # Newton iteration (initial guess, one pass from a symbolic iterate,
     # final averaging), see vf/props/c15_step.py
@@ -409,10 +463,11 @@ def main():
                        "ZeroDivisionError/ValueError are treated as an "
                        "outcome class that must also mirror",
                        "printf shadowed by a no-op"]
-    rep.outside = ["more Newton iterations than the stated niter",
+    rep.outside = ["more Newton iterations than the stated niter (except "
+                   "the inductive van_leer unit)",
                    "IEEE rounding",
                    "Galilean shift / pressure-density scaling of the exact "
-                   "solver and its residual tolerance (pow with a symbolic "
+                   "solver and the size of its pressure-function residual (pow with a symbolic "
                    "exponent is uninterpreted; not decidable here); for "
                    "van_leer they are decided by the inductive step unit "
                    "under the hypotheses that the pressure floor smallp "
